@@ -127,6 +127,24 @@ def runPatterns {R O} (x : Ext R) (fl : Flags) (pol : Policy O) (limit : Int) :
         if ex.2 then .error (.patternLimit, a'.pulls)      -- ExpansionLimitException → PatternLimitException
         else runPatterns x fl pol limit ps (nextLimit limit cl count) a'
 
+/-- The `limit` arguments the loop hands to `expand` — i.e. to `bracex.iexpand(.., limit=…)` when
+    BRACE is on — in call order, up to the point where the loop stops (normally or by an
+    exception).  Same recursion as `runPatterns`; it only records `(normalised pattern,
+    current_limit)`. -/
+def braceArgs {R O} (x : Ext R) (fl : Flags) (pol : Policy O) (limit : Int) :
+    List Pat → Int → Acc O → List (Pat × Int)
+  | [], _, _ => []
+  | p :: ps, cl, a =>
+    match x.norm fl p with
+    | .error _ => []
+    | .ok q =>
+      let ex := expand x fl q cl
+      (q, cl) ::
+        (match runItems pol limit ex.1 a 0 with
+         | .error _ => []
+         | .ok (a', count) =>
+           if ex.2 then [] else braceArgs x fl pol limit ps (nextLimit limit cl count) a')
+
 /-! ### `translate` and `compile_pattern` -/
 
 structure PN (R : Type) where
